@@ -72,3 +72,13 @@ package tscommon
 //@   ensures scalar: spec.scalarKindField(field) && spec.validKind(field.Desc.Kind()) ==> r == spec.wireClass(field)
 //@   ensures timestamp: spec.isTimestamp(field) ==> r == spec.timestampClass(field)
 //@   ensures enum: field.Desc.Kind() == protoreflect.EnumKind && field.Enum != nil ==> r == ite(spec.enumEncoding(field) == sebufhttp.EnumEncoding_ENUM_ENCODING_NUMBER, "number", string(field.Enum.Desc.Name()))
+
+// enums are emitted in the order of their full names, whatever order the map is iterated in (C15); the map is
+// keyed by full name (AddEnum is its only writer)
+//@ func (ms *MessageSet) OrderedEnums() (r []*protogen.Enum)
+//@   requires ms != nil
+//@   requires keyed_by_full_name: forall s string :: inDom(ms.enums, s) ==> ms.enums[s] != nil && string(ms.enums[s].Desc.FullName()) == s
+//@   ensures sorted: forall i int, j int :: 0 <= i && i < j && j < len(r) ==> !strLess(string(r[j].Desc.FullName()), string(r[i].Desc.FullName()))
+//@   ensures from_the_set: forall k int :: 0 <= k && k < len(r) ==> r[k] != nil && inDom(ms.enums, string(r[k].Desc.FullName())) && ms.enums[string(r[k].Desc.FullName())] == r[k]
+//@   loop 1 invariant forall i int :: 0 <= i && i < len(names) ==> inDom(ms.enums, names[i])
+//@   loop 2 invariant len(result) == _i && (forall k int :: 0 <= k && k < len(result) ==> result[k] == ms.enums[names[k]])
